@@ -387,7 +387,7 @@ def h17c_shards(tier):
         top = a_steps(lru) + 2  # every statement boundary of thread A, plus "no preemption"
         for oa1 in (GET, PUT, FLUSH):
             for ob1 in (GET, PUT, FLUSH):
-                rngs = [(0, top)] if tier == "quick" else [(0, top // 2), (top // 2, top)]
+                rngs = [(0, top // 2), (top // 2, top)] if lru else [(0, top)]
                 for r in rngs:
                     out.append({"lru": lru, "oa1": oa1, "ob1": ob1, "p1": r, "_timeout": 1500, "_path_timeout": 120})
     return out
